@@ -172,7 +172,7 @@ func checkLiveness(nw *Network, res *CaseResult, cycles int, idle bool, bound in
 	live := []*SimNode{}
 	for _, n := range nw.Nodes {
 		if n.babbling() && !n.Silent {
-			if n.ResetEpochs > 0 && n.InsertFailedStep >= 0 {
+			if n.unjudgedAfterReset() {
 				// a fast-forwarded node that had to refuse events it received (parents below
 				// its frame: documented limitation) cannot follow any more; it is not part of
 				// the live set whose progress is judged
@@ -362,7 +362,7 @@ func checkLiveness(nw *Network, res *CaseResult, cycles int, idle bool, bound in
 			}
 		}
 		for _, st := range nw.SubmitOrder {
-			if sn := nw.Nodes[st.Node]; !sn.babbling() || sn.Silent || nw.lostPool[st.Node] || st.Inc != sn.Incarnation || (sn.ResetEpochs > 0 && sn.InsertFailedStep >= 0) {
+			if sn := nw.Nodes[st.Node]; !sn.babbling() || sn.Silent || nw.lostPool[st.Node] || st.Inc != sn.Incarnation || sn.unjudgedAfterReset() {
 				continue
 			}
 			res.count("liveness_tx_checks", 1)
@@ -399,7 +399,7 @@ func NewMonFrames() *MonFrames {
 func (m *MonFrames) Name() string { return "frames" }
 func (m *MonFrames) AfterStep(nw *Network) {
 	for _, n := range nw.Nodes {
-		if n.Node == nil || n.Puppet || !n.Up || n.StoreClosed {
+		if n.Node == nil || n.Puppet || !n.Up || n.StoreClosed || n.unjudgedAfterReset() {
 			continue
 		}
 		lcr := n.Node.GetLastConsensusRoundIndex()
@@ -421,7 +421,11 @@ func (m *MonFrames) AfterStep(nw *Network) {
 			nw.Res.count("frame_hash_comparisons", 1)
 			if c, ok := m.canon[r]; ok {
 				if c != hs {
-					nw.violate("C13", "C13:frames-differ-between-honest-nodes",
+					sig := "C13:frames-differ-between-honest-nodes"
+					if resetNodeAssignsLowerRounds(nw.Nodes[m.from[r]], m.frames[r], n, f) {
+						sig = "C13:reset-node-assigns-lower-round-to-late-event"
+					}
+					nw.violate("C13", sig,
 						fmt.Sprintf("nodes %d and %d computed different frames for round %d", m.from[r], n.Idx, r),
 						map[string]interface{}{"round": r, "node_a": m.from[r], "node_b": n.Idx, "node_b_resets": n.ResetEpochs, "node_a_resets": nw.Nodes[m.from[r]].ResetEpochs, "diff": frameDiff(m.frames[r], f), "first_rounds": firstRoundsOf(nw, nw.Nodes[m.from[r]], n), "peersets_a": psRounds(m.frames[r]), "peersets_b": psRounds(f)})
 					return
